@@ -36,6 +36,7 @@ def gen(tier, rng):
     yield nodegen.c15_timeout_script(rng, "hetero-ka", [120, 600, 100], None, 700, ka="200")
     for t0 in ([5, 50, 61, 100, 131] if thorough else [20]):
         yield nodegen.c15_timeout_script(rng, "silence-%d" % t0, [60, 90, 300], t0, t0 + 420)
+    yield nodegen.c15_timeout_script(rng, "silence-shared-private-address", [60, 90, 300], 40, 40 + 300, shared_adv="4:c0a80001:3210")
     yield nodegen.backoff_script(rng, "backoff", 48 if thorough else 20)
     vals = [0, 1, 100, 119, 121, 200, 300, 3600, 65535]
     combos = [(3600, 200), (200, 3600), (3600, 200, 3600), (300, 121, 65535), (65535, 1), (1, 65535)]
